@@ -459,7 +459,6 @@ func checkC18(p *Prog, l *Ledger) {
 	l.Note("(f) never-executed code is not decided by any rule")
 }
 
-
 // checkNodeKindTests: no type test on an AST node outside eval's dispatch except at the documented places.
 // (Used by C18/e — parentheses — and by C16: behaviour must not depend on the syntactic form of an operand.)
 func checkNodeKindTests(p *Prog, l *Ledger, rule string) {
@@ -528,7 +527,6 @@ func checkNodeKindTests(p *Prog, l *Ledger, rule string) {
 	sort.Strings(sites)
 	l.Extra["ast_type_tests_outside_dispatch"] = sites
 }
-
 
 // checkGroupingTransparent: on every path, eval of a parenthesised expression performs exactly one child evaluation — of
 // its operand, in the same environment — and returns that value and signal; no store, definition, report or output on
